@@ -132,8 +132,11 @@ func checkAllocs(c AllocCase) error {
 			return fmt.Errorf("v%s Set(%q,%q) (illegal value) performs %v allocations per call, budget is 0", v.Name, abv, bad, a)
 		}
 	}
-	for name, f := range api.scores {
-		f := f
+	for _, name := range []string{"BaseScore", "TemporalScore", "EnvironmentalScore", "Impact", "Exploitability", "Score"} {
+		f := api.scores[name]
+		if f == nil {
+			continue
+		}
 		if a := allocs(func() { sinkF = f() }, 0); a != 0 {
 			return fmt.Errorf("v%s %s of %q performs %v allocations per call, budget is 0", v.Name, name, s, a)
 		}
